@@ -92,6 +92,6 @@ Proof. vm_compute. reflexivity. Qed.
 (* and the README table judged on the code's answers: only recorded findings are departed from *)
 Lemma probes_spec_ok : forallb (fun p => negb (probe_class p =? 9) && negb (probe_class p =? 8)) gen_probes = true.
 Proof. vm_compute. reflexivity. Qed.
-(* and how the code rejected: by ValueError, or inside the trigger of recorded finding rejection-not-a-value-error *)
-Lemma probes_escape_ok : forallb (fun p => negb (probe_escape p =? 7)) gen_probes = true.
+(* and how the code rejected: by ValueError, always *)
+Lemma probes_escape_ok : forallb (fun p => probe_escape p =? 0) gen_probes = true.
 Proof. vm_compute. reflexivity. Qed.
